@@ -94,10 +94,10 @@ class PortsSemanticsCfg:
         explicit_ports = []
 
         if sts_explicit_ports:
-            explicit_ports.append(f'STS={list(sts_explicit_ports)}')
+            explicit_ports.append(f'STS={sorted(sts_explicit_ports)}')
 
         if mts_explicit_ports:
-            explicit_ports.append(f'MTS={list(mts_explicit_ports)}')
+            explicit_ports.append(f'MTS={sorted(mts_explicit_ports)}')
 
         if self.sts.value == PortWildcard.REMAINING:
             explicit_ports.append('STS=[<Remaining ports>]')
